@@ -45,6 +45,10 @@ class E0(PlanError):
         return 0
 
 
+class ET(PlanError, TimeoutError):
+    """a node's own timeout (TimeoutError is asyncio.TimeoutError since Python 3.11): an ordinary Exception"""
+
+
 class CE(asyncio.CancelledError):
     """a CancelledError raised by a node body itself (an awaited helper of the body was cancelled): a BaseException
     that the engine did not ask for"""
@@ -62,7 +66,7 @@ class B1(BaseException):
         self.token = token
 
 
-EXC = {'E0': E0, 'E1': E1, 'E2': E2, 'E3': E3, 'B1': B1, 'CE': CE, 'Exception': Exception, 'PlanError': PlanError,
+EXC = {'E0': E0, 'ET': ET, 'E1': E1, 'E2': E2, 'E3': E3, 'B1': B1, 'CE': CE, 'Exception': Exception, 'PlanError': PlanError,
        'BaseException': BaseException}
 
 
